@@ -83,6 +83,15 @@ pub enum Ty {
     Param(usize),
     Con(Con, Vec<Ty>),
     Adt(usize, Vec<Ty>),
+    /// `Gc<'gc, Self>` (false) / `Gc<'gc, RefLock<Self>>` (true): only inside a declaration body
+    GcSelf(bool),
+    /// `GcWeak<'gc, Self>`: only inside a declaration body
+    WeakSelf,
+    /// after substitution (value generation only): a pointer to a value of the closed type
+    GcTo(Box<Ty>, bool),
+    WeakTo(Box<Ty>),
+    /// `DropTok`: a `'static` payload without `Collect` impl that records its own destruction
+    Tok,
 }
 
 #[derive(Clone, Copy, PartialEq, Debug)]
@@ -134,6 +143,43 @@ enum Want {
 
 struct Scope {
     param_static: Vec<bool>,
+    /// field types may be spelled with `Self` (inside the body of a tracing declaration)
+    allow_self: bool,
+}
+
+/// One member of the systematic recursive family (see `family_specs`).
+#[derive(Clone, Debug)]
+pub struct FamSpec {
+    /// 0 `Gc<'gc, Self>`, 1 `GcWeak<'gc, Self>`, 2 `Option<Gc<'gc, Self>>`, 3 `Vec<Gc<'gc, Self>>`,
+    /// 4 `[Option<Gc<'gc, Self>>; 2]`, 5 `Option<Gc<'gc, RefLock<Self>>>`
+    pub link: usize,
+    /// 0 named struct, 1 tuple struct, 2 enum (link inside a variant)
+    pub kind: usize,
+    /// companions of the link: 0 plain (`i32`), 1 `require_static` drop token, 2 another pointer
+    pub comps: Vec<usize>,
+    /// index of the link among the fields
+    pub pos: usize,
+    pub generic: bool,
+}
+
+/// Self-typed pointer fields at every field position of named structs, tuple structs and enum
+/// variants, alone and combined with plain / require_static / other-pointer fields, with and
+/// without a type parameter.
+pub fn family_specs() -> Vec<FamSpec> {
+    let comp_sets: [&[usize]; 5] = [&[], &[0], &[1], &[2], &[0, 1]];
+    let mut v = vec![];
+    for link in 0..6 {
+        for kind in 0..3 {
+            for comps in comp_sets.iter() {
+                for pos in 0..=comps.len() {
+                    for generic in [false, true] {
+                        v.push(FamSpec { link, kind, comps: comps.to_vec(), pos, generic });
+                    }
+                }
+            }
+        }
+    }
+    v
 }
 
 const FIELD_NAMES: &[&str] = &[
@@ -153,6 +199,9 @@ pub struct Case {
     pub nweak: usize,
     /// per top-level field of the active variant: (is require_static, number of pointers held)
     pub field_ptrs: Vec<(bool, usize)>,
+    /// no value of this variant can be built (e.g. a struct with a bare `Gc<'gc, Self>` field):
+    /// only the NEEDS_TRACE constant is compared
+    pub nt_only: bool,
 }
 
 pub struct Group {
@@ -220,7 +269,7 @@ impl Gen {
 
     fn uses_gc(&self, ty: &Ty) -> bool {
         match ty {
-            Ty::Gc | Ty::Weak => true,
+            Ty::Gc | Ty::Weak | Ty::GcSelf(_) | Ty::WeakSelf => true,
             Ty::Con(_, args) => args.iter().any(|a| self.uses_gc(a)),
             Ty::Adt(idx, args) => self.decls[*idx].lifetimes > 0 || args.iter().any(|a| self.uses_gc(a)),
             _ => false,
@@ -253,6 +302,7 @@ impl Gen {
                     if params.is_empty() { 0 } else { 14 },
                     if depth < 3 { 26 } else { 0 },
                     if adt_depth < 2 && depth < 3 { 10 } else { 0 },
+                    if scope.allow_self && depth == 0 { 10 } else { 0 },
                 ];
                 match self.rng.weighted(&w) {
                     0 => self.gen_leaf(),
@@ -260,6 +310,7 @@ impl Gen {
                     2 => Ty::Weak,
                     3 => Ty::Param(params[self.rng.below(params.len())]),
                     4 => self.gen_con(scope, want, depth, adt_depth),
+                    6 => self.gen_self_link(),
                     _ => {
                         let idx = self.gen_decl(adt_depth + 1, false);
                         let args = self.gen_args(idx, scope, depth + 1, adt_depth + 1);
@@ -289,6 +340,22 @@ impl Gen {
                     }
                 }
             }
+        }
+    }
+
+    /// A field type spelled with `Self` behind a pointer, in a form that has an "empty" value so
+    /// that a finite structure can always be built (bare `Gc<'gc, Self>` links are covered by the
+    /// systematic family).
+    fn gen_self_link(&mut self) -> Ty {
+        let g = Ty::GcSelf(self.rng.chance(20));
+        match self.rng.below(10) {
+            0 | 1 | 2 => Ty::Con(Con::Option, vec![g]),
+            3 | 4 => Ty::Con(Con::Vec, vec![g]),
+            5 => Ty::Con(Con::Array(2), vec![Ty::Con(Con::Option, vec![g])]),
+            6 => Ty::Con(Con::Option, vec![Ty::WeakSelf]),
+            7 => Ty::Con(Con::RefLock, vec![Ty::Con(Con::Option, vec![g])]),
+            8 => Ty::Con(Con::Lock, vec![Ty::Con(Con::Option, vec![Ty::GcSelf(false)])]),
+            _ => Ty::Con(Con::Tuple, vec![Ty::Leaf(Leaf::U8), Ty::Con(Con::Vec, vec![Ty::WeakSelf])]),
         }
     }
 
@@ -367,7 +434,7 @@ impl Gen {
         let all_static = force_static || mode == Mode::RequireStatic;
         let tparams = self.rng.weighted(&[55, 28, 14, 3]);
         let param_static: Vec<bool> = (0..tparams).map(|_| all_static || self.rng.chance(25)).collect();
-        let scope = Scope { param_static: param_static.clone() };
+        let scope = Scope { param_static: param_static.clone(), allow_self: !all_static };
         let kind = self.rng.weighted(&[34, 24, 5, 37]); // named struct, tuple struct, unit struct, enum
         let is_enum = kind == 3;
         let nvariants = if is_enum { 1 + self.rng.weighted(&[2, 4, 3, 2]) } else { 1 };
@@ -487,6 +554,13 @@ impl Gen {
             Ty::Weak => "GcWeak<'gc, u32>".into(),
             Ty::NoImpl => "NoImpl".into(),
             Ty::Param(i) => format!("T{}", i),
+            Ty::GcSelf(false) => "Gc<'gc, Self>".into(),
+            Ty::GcSelf(true) => "Gc<'gc, RefLock<Self>>".into(),
+            Ty::WeakSelf => "GcWeak<'gc, Self>".into(),
+            Ty::GcTo(t, false) => format!("Gc<'gc, {}>", self.rust_ty(t, in_decl)),
+            Ty::GcTo(t, true) => format!("Gc<'gc, RefLock<{}>>", self.rust_ty(t, in_decl)),
+            Ty::WeakTo(t) => format!("GcWeak<'gc, {}>", self.rust_ty(t, in_decl)),
+            Ty::Tok => "DropTok".into(),
             Ty::Con(c, args) => {
                 let a: Vec<String> = args.iter().map(|x| self.rust_ty(x, in_decl)).collect();
                 match c {
@@ -619,6 +693,13 @@ impl Gen {
             Ty::Weak => "W".into(),
             Ty::NoImpl => "OS".into(),
             Ty::Param(i) => format!("(P {})", i),
+            // a pointer to `Self` is a pointer leaf: `Gc::trace` reports the pointer and never looks
+            // at the pointee, NEEDS_TRACE is the default `true` whatever the pointee is
+            Ty::GcSelf(_) => "GS".into(),
+            Ty::WeakSelf => "WS".into(),
+            Ty::GcTo(..) => "G".into(),
+            Ty::WeakTo(_) => "W".into(),
+            Ty::Tok => "OS".into(),
             Ty::Con(c, args) => {
                 let name = match c {
                     Con::Option => "option".to_string(),
@@ -686,19 +767,58 @@ impl Gen {
     }
 
     // ---------------------------------------------------------------- values
-    fn subst(ty: &Ty, args: &[Ty]) -> Ty {
+    /// Close a field type of `self_ty = D<args>`: parameters by `args`, `Self` by `self_ty`.
+    fn subst(ty: &Ty, args: &[Ty], self_ty: &Ty) -> Ty {
         match ty {
             Ty::Param(i) => args[*i].clone(),
-            Ty::Con(c, a) => Ty::Con(*c, a.iter().map(|x| Self::subst(x, args)).collect()),
-            Ty::Adt(i, a) => Ty::Adt(*i, a.iter().map(|x| Self::subst(x, args)).collect()),
+            Ty::GcSelf(w) => Ty::GcTo(Box::new(self_ty.clone()), *w),
+            Ty::WeakSelf => Ty::WeakTo(Box::new(self_ty.clone())),
+            Ty::Con(c, a) => Ty::Con(*c, a.iter().map(|x| Self::subst(x, args, self_ty)).collect()),
+            Ty::Adt(i, a) => Ty::Adt(*i, a.iter().map(|x| Self::subst(x, args, self_ty)).collect()),
             t => t.clone(),
+        }
+    }
+
+    /// Can a value of the closed type be built with at most `budget` further levels of `Self`
+    /// pointees?  (Bare `Gc<'gc, Self>` fields of a struct never can.)
+    fn buildable(&self, ty: &Ty, budget: usize) -> bool {
+        match ty {
+            Ty::GcTo(t, _) | Ty::WeakTo(t) => budget > 0 && self.buildable(t, budget - 1),
+            Ty::Con(c, args) => match c {
+                Con::Option | Con::Vec | Con::VecDeque => true,
+                Con::BTreeMap => true,
+                Con::Array(n) => *n == 0 || self.buildable(&args[0], budget),
+                Con::Result => args.iter().any(|a| self.buildable(a, budget)),
+                _ => args.iter().all(|a| self.buildable(a, budget)),
+            },
+            Ty::Adt(idx, args) => {
+                let d = &self.decls[*idx];
+                d.variants.iter().any(|v| v.fields.iter().all(|f| self.buildable(&Self::subst(&f.ty, args, ty), budget)))
+            }
+            _ => true,
+        }
+    }
+
+    fn variant_buildable(&self, ty: &Ty, k: usize, budget: usize) -> bool {
+        if let Ty::Adt(idx, args) = ty {
+            self.decls[*idx].variants[k].fields.iter().all(|f| self.buildable(&Self::subst(&f.ty, args, ty), budget))
+        } else {
+            true
+        }
+    }
+
+    fn mentions_self(ty: &Ty) -> bool {
+        match ty {
+            Ty::GcSelf(_) | Ty::WeakSelf => true,
+            Ty::Con(_, a) | Ty::Adt(_, a) => a.iter().any(Self::mentions_self),
+            _ => false,
         }
     }
 
     /// where a pointer sits: 1 = inside a provided container, 2 = inside a nested derived ADT,
     /// 4 = in a position whose declared type mentions a type parameter
     fn ptr_path(&mut self, ctx: u8) {
-        if ctx == 0 {
+        if ctx & !16 == 0 {
             self.stats.bump("ptr_path.direct_field_of_top_decl");
         }
         if ctx & 1 != 0 {
@@ -709,6 +829,9 @@ impl Gen {
         }
         if ctx & 4 != 0 {
             self.stats.bump("ptr_path.through_type_parameter");
+        }
+        if ctx & 16 != 0 {
+            self.stats.bump("ptr_path.self_typed_link");
         }
     }
 
@@ -731,14 +854,35 @@ impl Gen {
     }
 
     /// (rust expression, model description, #pointers, #weak) of a fresh value of closed type `ty`
-    fn gen_val(&mut self, ty: &Ty, force_variant: Option<usize>, top: Option<&mut Vec<(bool, usize)>>, ctx: u8) -> (String, String, usize, usize) {
+    /// ctx bits: 1 inside a provided container, 2 inside a nested derived ADT, 4 through a type
+    /// parameter, 8 below a node that is only weakly reachable (not expected to survive a
+    /// collection), 16 (statistics only) the pointer is a `Self`-typed link.
+    /// `budget`: how many further levels of `Self` pointees may be allocated.
+    fn gen_val(&mut self, ty: &Ty, force_variant: Option<usize>, top: Option<&mut Vec<(bool, usize)>>, ctx: u8, budget: usize) -> (String, String, usize, usize) {
         match ty {
             Ty::Leaf(l) => (self.leaf_val(*l), "l".into(), 0, 0),
             Ty::Gc => {
                 let id = self.fresh();
                 self.ptr_path(ctx);
-                (format!("p.g({})", id), format!("(g {})", id), 1, 0)
+                (format!("p.g{}({})", if ctx & 8 != 0 { "0" } else { "" }, id), format!("(g {})", id), 1, 0)
             }
+            Ty::GcTo(t, wrap) => {
+                let id = self.fresh();
+                self.ptr_path(ctx | 16);
+                assert!(budget > 0, "self link without budget");
+                let (inner, _, _, _) = self.gen_val(t, None, None, (ctx | 2) & !4, budget - 1);
+                let inner = if *wrap { format!("RefLock::new({})", inner) } else { inner };
+                (format!("{{ let n = {}; p.adopt{}({}, n) }}", inner, if ctx & 8 != 0 { "0" } else { "" }, id), format!("(g {})", id), 1, 0)
+            }
+            Ty::WeakTo(t) => {
+                let id = self.fresh();
+                self.ptr_path(ctx | 16);
+                assert!(budget > 0, "self link without budget");
+                let (inner, _, _, _) = self.gen_val(t, None, None, ((ctx | 2) & !4) | 8, budget - 1);
+                (format!("{{ let n = {}; Gc::downgrade(p.adopt0({}, n)) }}", inner, id), format!("(w {})", id), 1, 1)
+            }
+            Ty::Tok => ((if ctx & 8 != 0 { "p.tok0()" } else { "p.tok()" }).to_string(), "(o)".into(), 0, 0),
+            Ty::GcSelf(_) | Ty::WeakSelf => unreachable!("closed types only"),
             Ty::Weak => {
                 let id = self.fresh();
                 self.ptr_path(ctx);
@@ -752,15 +896,16 @@ impl Gen {
                 let mut elems: Vec<(usize, String)> = vec![]; // (position, expr)
                 let mut descs: Vec<String> = vec![];
                 let mut push = |this: &mut Gen, pos: usize, t: &Ty, elems: &mut Vec<(usize, String)>, descs: &mut Vec<String>, n: &mut usize, w: &mut usize| {
-                    let (e, d, k, kw) = this.gen_val(t, None, None, ctx | 1);
+                    let (e, d, k, kw) = this.gen_val(t, None, None, ctx | 1, budget);
                     elems.push((pos, e));
                     descs.push(format!("({} {})", pos, d));
                     *n += k;
                     *w += kw;
                 };
+                let ok: Vec<bool> = args.iter().map(|a| self.buildable(a, budget)).collect();
                 let expr = match c {
                     Con::Option => {
-                        if self.rng.chance(85) {
+                        if ok[0] && self.rng.chance(85) {
                             push(self, 0, &args[0], &mut elems, &mut descs, &mut n, &mut w);
                             format!("Some({})", elems[0].1)
                         } else {
@@ -778,7 +923,7 @@ impl Gen {
                         format!("{}({})", f, elems[0].1)
                     }
                     Con::Vec | Con::VecDeque => {
-                        let len = self.rng.weighted(&[1, 4, 4, 3]);
+                        let len = if ok[0] { self.rng.weighted(&[1, 4, 4, 3]) } else { 0 };
                         for _ in 0..len {
                             push(self, 0, &args[0], &mut elems, &mut descs, &mut n, &mut w);
                         }
@@ -806,7 +951,7 @@ impl Gen {
                         format!("({},)", items.join(", "))
                     }
                     Con::Result => {
-                        if self.rng.chance(50) {
+                        if ok[0] && (!ok[1] || self.rng.chance(50)) {
                             push(self, 0, &args[0], &mut elems, &mut descs, &mut n, &mut w);
                             format!("Ok({})", elems[0].1)
                         } else {
@@ -815,7 +960,7 @@ impl Gen {
                         }
                     }
                     Con::BTreeMap => {
-                        let len = self.rng.weighted(&[2, 4, 4, 2]);
+                        let len = if ok[1] { self.rng.weighted(&[2, 4, 4, 2]) } else { 0 };
                         let mut pairs = vec![];
                         for i in 0..len {
                             // distinct keys: pointer keys are distinct by id, leaf keys by index
@@ -836,7 +981,7 @@ impl Gen {
                                     format!("{}", i)
                                 }
                             };
-                            let (e, d, k, kw) = self.gen_val(&args[1], None, None, ctx | 1);
+                            let (e, d, k, kw) = self.gen_val(&args[1], None, None, ctx | 1, budget);
                             descs.push(format!("(1 {})", d));
                             n += k;
                             w += kw;
@@ -850,7 +995,11 @@ impl Gen {
             }
             Ty::Adt(idx, args) => {
                 let d = self.decls[*idx].clone();
-                let k = force_variant.unwrap_or_else(|| self.rng.below(d.variants.len()));
+                let k = force_variant.unwrap_or_else(|| {
+                    let cands: Vec<usize> = (0..d.variants.len()).filter(|k| self.variant_buildable(ty, *k, budget)).collect();
+                    assert!(!cands.is_empty(), "no buildable variant");
+                    cands[self.rng.below(cands.len())]
+                });
                 let v = &d.variants[k];
                 let mut n = 0;
                 let mut w = 0;
@@ -858,10 +1007,10 @@ impl Gen {
                 let mut descs = vec![];
                 let mut per_field = vec![];
                 for f in &v.fields {
-                    let ft = Self::subst(&f.ty, args);
+                    let ft = Self::subst(&f.ty, args, ty);
                     let via_param = (0..d.tparams).any(|i| Self::mentions_param(&f.ty, i));
                     let nested = if top.is_some() { 0 } else { 2 };
-                    let (e, ds, kn, kw) = self.gen_val(&ft, None, None, ctx | nested | if via_param { 4 } else { 0 });
+                    let (e, ds, kn, kw) = self.gen_val(&ft, None, None, ctx | nested | if via_param { 4 } else { 0 }, budget);
                     n += kn;
                     w += kw;
                     per_field.push((f.stat, kn));
@@ -891,6 +1040,11 @@ impl Gen {
             Ty::Weak => "tynode.gcweak".into(),
             Ty::NoImpl => "tynode.opaque_static".into(),
             Ty::Param(_) => "tynode.param".into(),
+            Ty::GcSelf(false) => "tynode.gc_self".into(),
+            Ty::GcSelf(true) => "tynode.gc_reflock_self".into(),
+            Ty::WeakSelf => "tynode.gcweak_self".into(),
+            Ty::GcTo(..) | Ty::WeakTo(_) => "tynode.closed_self_ptr".into(),
+            Ty::Tok => "tynode.drop_token".into(),
             Ty::Con(c, _) => format!("con.{:?}", c).split('(').next().unwrap().to_string(),
             Ty::Adt(..) => "tynode.nested_adt".into(),
         };
@@ -917,6 +1071,15 @@ impl Gen {
         };
         self.stats.bump(&format!("kind.{}", kind));
         self.stats.bump(&format!("mode.{:?}", d.mode));
+        if d.variants.iter().any(|v| v.fields.iter().any(|f| Self::mentions_self(&f.ty))) {
+            self.stats.bump("decl.recursive_through_self");
+            let only_self = !d.variants.iter().any(|v| {
+                v.fields.iter().any(|f| !f.stat && !Self::mentions_self(&f.ty) && !matches!(f.ty, Ty::Leaf(_)))
+            });
+            if only_self {
+                self.stats.bump("decl.recursive_only_self_fields_may_need_trace");
+            }
+        }
         if d.has_drop {
             self.stats.bump(&format!("drop_impl.{:?}", d.mode));
         }
@@ -961,9 +1124,78 @@ impl Gen {
         self.group = index;
         self.decls.clear();
         let top = self.gen_decl(0, false);
-        let closed = Scope { param_static: vec![] };
+        let closed = Scope { param_static: vec![], allow_self: false };
         let args = self.gen_args(top, &closed, 1, 1);
         // gen_args may have pushed further declarations (inside the arguments); `top` stays valid
+        self.finish_group(index, top, args, "g")
+    }
+
+    /// One member of the systematic recursive family.
+    pub fn gen_family(&mut self, index: usize, serial: usize, s: &FamSpec) -> (Group, Vec<Case>) {
+        self.group = index;
+        self.decls.clear();
+        let g = Ty::GcSelf(false);
+        let opt = |t: Ty| Ty::Con(Con::Option, vec![t]);
+        let (link_ty, link_name) = match s.link {
+            0 => (g.clone(), "next"),
+            1 => (Ty::WeakSelf, "parent"),
+            2 => (opt(g.clone()), "next"),
+            3 => (Ty::Con(Con::Vec, vec![g.clone()]), "children"),
+            4 => (Ty::Con(Con::Array(2), vec![opt(g.clone())]), "children"),
+            _ => (opt(Ty::GcSelf(true)), "next"),
+        };
+        let mut fields: Vec<Field> = s
+            .comps
+            .iter()
+            .map(|c| match c {
+                0 => Field { name: "value".into(), stat: false, ty: Ty::Leaf(Leaf::I32) },
+                1 => Field { name: "token".into(), stat: true, ty: Ty::Tok },
+                _ => Field { name: "other".into(), stat: false, ty: Ty::Gc },
+            })
+            .collect();
+        fields.insert(s.pos, Field { name: link_name.into(), stat: false, ty: link_ty });
+        if s.generic {
+            let f = Field { name: "p0".into(), stat: false, ty: Ty::Param(0) };
+            if serial % 4 < 2 { fields.push(f) } else { fields.insert(0, f) }
+        }
+        let style = |named: bool| if named { Style::Named } else { Style::Tuple };
+        let variants = match s.kind {
+            0 => vec![Variant { name: "V0".into(), style: Style::Named, fields }],
+            1 => vec![Variant { name: "V0".into(), style: Style::Tuple, fields }],
+            _ => {
+                let link = Variant { name: "Link".into(), style: style((serial / 2) % 2 == 0), fields };
+                let nil = Variant { name: "Nil".into(), style: Style::Unit, fields: vec![] };
+                let other = Variant {
+                    name: "Other".into(),
+                    style: Style::Tuple,
+                    fields: vec![Field { name: "x".into(), stat: false, ty: Ty::Leaf(Leaf::I32) }],
+                };
+                match serial % 3 {
+                    0 => vec![nil, link, other],
+                    1 => vec![link, nil],
+                    _ => vec![other, nil, link],
+                }
+            }
+        };
+        let mode = if serial % 5 == 4 { Mode::UnsafeDrop } else { Mode::NoDrop };
+        let decl = Decl {
+            name: format!("R{}_0", index),
+            is_enum: s.kind == 2,
+            mode,
+            has_drop: mode == Mode::UnsafeDrop && serial % 2 == 0,
+            lifetimes: 1,
+            tparams: if s.generic { 1 } else { 0 },
+            param_static: if s.generic { vec![false] } else { vec![] },
+            bound: if s.generic && serial % 3 == 0 { Some(vec![0]) } else { None },
+            variants,
+        };
+        self.decls.push(decl);
+        let args = if s.generic { vec![if serial % 8 == 7 { Ty::Gc } else { Ty::Leaf(Leaf::U8) }] } else { vec![] };
+        self.stats.bump("family.groups");
+        self.finish_group(index, 0, args, "r")
+    }
+
+    fn finish_group(&mut self, index: usize, top: usize, args: Vec<Ty>, prefix: &str) -> (Group, Vec<Case>) {
         let mut src = String::new();
         for d in &self.decls {
             src.push_str(&self.decl_rust(d));
@@ -977,11 +1209,34 @@ impl Gen {
         let desc_ty = self.desc_ty(&top_ty);
         let mut cases = vec![];
         let nv = self.decls[top].variants.len();
+        let recursive = self.decls.iter().any(|d| d.variants.iter().any(|v| v.fields.iter().any(|f| Self::mentions_self(&f.ty))));
         for k in 0..nv {
             self.next_id = 0;
+            if !self.variant_buildable(&top_ty, k, 2) {
+                // e.g. a struct with a bare `Gc<'gc, Self>` field: no finite value exists in safe
+                // code; the NEEDS_TRACE constant is still compared with the model
+                self.stats.bump("cases.needs_trace_only(no finite value)");
+                cases.push(Case {
+                    name: format!("{}{:04}v{}", prefix, index, k),
+                    desc_ty: desc_ty.clone(),
+                    desc_val: "-".into(),
+                    rust_ty: rust_ty.clone(),
+                    rust_expr: String::new(),
+                    group: index,
+                    variant: k,
+                    nptrs: 0,
+                    nweak: 0,
+                    field_ptrs: vec![],
+                    nt_only: true,
+                });
+                continue;
+            }
             let mut per_field = vec![];
-            let (expr, dv, n, w) = self.gen_val(&top_ty, Some(k), Some(&mut per_field), 0);
+            let (expr, dv, n, w) = self.gen_val(&top_ty, Some(k), Some(&mut per_field), 0, 2);
             self.stats.bump("cases.total");
+            if recursive {
+                self.stats.bump("cases.in_recursive_group");
+            }
             self.stats.bump(&format!("case_ptrs.{}", if n >= 8 { "8+".to_string() } else { n.to_string() }));
             self.stats.add("ptrs.total", n);
             self.stats.add("ptrs.weak", w);
@@ -1000,7 +1255,7 @@ impl Gen {
                 self.stats.bump("cases.ptr_in_non_first_variant");
             }
             cases.push(Case {
-                name: format!("g{:04}v{}", index, k),
+                name: format!("{}{:04}v{}", prefix, index, k),
                 desc_ty: desc_ty.clone(),
                 desc_val: dv,
                 rust_ty: rust_ty.clone(),
@@ -1010,6 +1265,7 @@ impl Gen {
                 nptrs: n,
                 nweak: w,
                 field_ptrs: per_field,
+                nt_only: false,
             });
         }
         (Group { index, decls, top, args, decl_src: src }, cases)
@@ -1017,7 +1273,7 @@ impl Gen {
 }
 
 pub const PRELUDE: &str = r#"#[allow(unused_imports)]
-use gc_arena::{Collect, Gc, GcWeak, Mutation, lock::{Lock, RefLock}};
+use gc_arena::{Collect, Gc, GcWeak, Mutation, Rootable, lock::{Lock, RefLock}};
 #[allow(unused_imports)]
 use std::{collections::{BTreeMap, VecDeque}, marker::PhantomData, rc::Rc};
 /// A `'static` type without a `Collect` impl.
@@ -1025,33 +1281,56 @@ use std::{collections::{BTreeMap, VecDeque}, marker::PhantomData, rc::Rc};
 pub struct NoImpl(pub u8);
 "#;
 
-/// Writes the module source: returns (module text, stats text)
-pub fn generate(seed: u64, n: usize) -> (String, String) {
+/// Writes the module source: returns (module text, stats text).  `n` random groups from the seed,
+/// followed (when `family`) by the systematic recursive family (independent of the seed).
+pub fn generate(seed: u64, n: usize, family: bool) -> (String, String) {
     let mut g = Gen::new(seed);
     let mut out = String::new();
     out.push_str("// @generated by gen/shapes.rs — do not edit\n");
-    let _ = writeln!(out, "pub const SEED: u64 = {};\npub const GROUPS: usize = {};", seed, n);
+    let specs = if family { family_specs() } else { vec![] };
+    let _ = writeln!(out, "pub const SEED: u64 = {};\npub const GROUPS: usize = {};\npub const FAMILY: usize = {};", seed, n, specs.len());
     let mut table = String::new();
-    for i in 0..n {
-        let (grp, cases) = g.gen_group(i);
-        let _ = writeln!(out, "#[allow(dead_code, non_camel_case_types, unused_variables, unused_mut)]\npub mod g{:04} {{", i);
+    for i in 0..n + specs.len() {
+        let (grp, cases) = if i < n { g.gen_group(i) } else { g.gen_family(i, i - n, &specs[i - n]) };
+        let modname = format!("{}{:04}", if i < n { "g" } else { "r" }, i);
+        let _ = writeln!(out, "#[allow(dead_code, non_camel_case_types, unused_variables, unused_mut, unused_imports)]\npub mod {} {{", modname);
         out.push_str("use crate::rec::*;\n");
         out.push_str(PRELUDE);
         out.push_str(&grp.decl_src);
         for c in &cases {
+            if c.nt_only {
+                let _ = writeln!(
+                    out,
+                    "pub fn nt_v{}<'gc>(_mc: &'gc Mutation<'gc>) -> bool {{\n    <{} as Collect<'gc>>::NEEDS_TRACE\n}}",
+                    c.variant, c.rust_ty
+                );
+                let replay = format!(
+                    "{}{}\n// no finite value of this variant exists in safe code; only the constant is observed\nfn needs_trace<'gc>() -> bool {{\n    <{} as Collect<'gc>>::NEEDS_TRACE\n}}\n",
+                    PRELUDE, grp.decl_src, c.rust_ty
+                );
+                let _ = writeln!(
+                    table,
+                    "    Case {{ name: {:?}, ty: {:?}, val: {:?}, src: {:?}, nptrs: 0, run: None, survive: None, nt: Some({}::nt_v{}) }},",
+                    c.name, c.desc_ty, c.desc_val, replay, modname, c.variant
+                );
+                continue;
+            }
+            let root_ty = c.rust_ty.replace("'gc", "'_");
             let _ = writeln!(
                 out,
-                "pub fn run_v{}<'gc>(mc: &'gc Mutation<'gc>) -> Obs {{\n    let mut p = Ptrs::new(mc);\n    let v: {} = {};\n    observe::<{}>(&p, &v)\n}}",
-                c.variant, c.rust_ty, c.rust_expr, c.rust_ty
+                "pub fn build_v{k}<'gc>(p: &mut Ptrs<'gc>) -> {ty} {{\n    {expr}\n}}\n\
+                 pub fn run_v{k}<'gc>(mc: &'gc Mutation<'gc>) -> Obs {{\n    let mut p = Ptrs::new(mc);\n    let v: {ty} = build_v{k}(&mut p);\n    observe::<{ty}>(&p, &v)\n}}\n\
+                 pub fn survive_v{k}() -> Surv {{\n    survive::<Rootable![({root}, Vec<GcWeak<'_, ()>>)]>(|mc| {{\n        let mut p = Ptrs::new(mc);\n        let v = build_v{k}(&mut p);\n        (v, p.take_observers())\n    }})\n}}",
+                k = c.variant, ty = c.rust_ty, expr = c.rust_expr, root = root_ty
             );
             let replay = format!(
-                "{}{}\nfn build<'gc>(mc: &'gc Mutation<'gc>, p: &mut Ptrs<'gc>) -> {} {{\n    {}\n}}\n",
+                "{}{}\n// `p.g(id)` / `p.w(id)`: a distinct Gc<u32> / GcWeak<u32> with that id; `p.adopt(id, v)`: `Gc::new(mc, v)` registered\n// with that id (a `Self`-typed link); `p.tok()`: a DropTok payload; a trailing `0` = below a weakly held node\n// (harness_collect/src/rec.rs).  The value is traced with the recording tracer (Trace::trace), then built\n// again as an arena root and checked after two finish_cycle()s.\nfn build<'gc>(p: &mut Ptrs<'gc>) -> {} {{\n    {}\n}}\n",
                 PRELUDE, grp.decl_src, c.rust_ty, c.rust_expr
             );
             let _ = writeln!(
                 table,
-                "    Case {{ name: {:?}, ty: {:?}, val: {:?}, src: {:?}, nptrs: {}, run: g{:04}::run_v{} }},",
-                c.name, c.desc_ty, c.desc_val, replay, c.nptrs, i, c.variant
+                "    Case {{ name: {:?}, ty: {:?}, val: {:?}, src: {:?}, nptrs: {}, run: Some({m}::run_v{k}), survive: Some({m}::survive_v{k}), nt: None }},",
+                c.name, c.desc_ty, c.desc_val, replay, c.nptrs, m = modname, k = c.variant
             );
         }
         out.push_str("}\n");
